@@ -19,7 +19,8 @@ CONSTANTS
 INVARIANT TypeOK
 INVARIANT RoundTripOnClean
 INVARIANT LineParsersKeepGt
-INVARIANT BytesParserLosslessIffNoGt
+INVARIANT BytesParserKeepsGt
+INVARIANT HasGtCovered
 INVARIANT BlankEdgesAreLost
 INVARIANT LayoutsSound
 INVARIANT CanonIsALayout
